@@ -21,9 +21,83 @@ def avg_price_ok(case, t, reported):
     return abs(got - want) <= abs(want) * Fraction(1, 10 ** 27)
 
 
+def cli_stage(out, tier, replay=None):
+    """the same through the command line: rp2_us / rp2_generic with an [accounting_methods] schedule that changes method in a
+    year with events, run without a window and with -f on / after the year of the change.  Every row of the windowed tax report
+    must be a row of the unfiltered one (a from-date only hides rows; the tax report carries no figure that depends on it)."""
+    import json
+    from harness import l6
+    if replay is not None:
+        pairs = [(replay["base"], replay["windowed"])]
+    else:
+        rng = core.Rng(core.seed(), 1010)
+        pairs = []
+        for k in range(8 if tier == "quick" else 80):
+            inp = l6.gen_input(rng, rng.choice(["plain", "dca", "lots", "plain"]), n_assets=rng.choice([1, 2]))
+            years = sorted({d.year for a in inp["assets"] for d, _, _ in l6.all_events(a)})
+            if len(years) < 2:
+                continue
+            y = rng.choice(years[1:])
+            m1 = rng.choice(["fifo", "lifo", "hifo", "lofo"])
+            m2 = rng.choice([m for m in ("fifo", "lifo", "hifo", "lofo") if m != m1])
+            base = {"country": ("us", "generic")[k % 2], "opts": {"method": None, "lang": "en", "from": None, "to": None}, "inp": inp,
+                    "ini_extra": f"[accounting_methods]\n1970 = {m1}\n{y} = {m2}\n", "dump": "full", "hashseed": 0, "supported": True,
+                    "kind": "c10-cli", "window": "none"}
+            later = [x for x in years if x >= y]
+            frm = f"{rng.choice(later)}-{rng.choice(['01-01', '01-01', '03-15', '07-01'])}"
+            win = dict(base, opts=dict(base["opts"], **{"from": frm}), window="from")
+            pairs.append((base, win))
+    res = l6.run_jobs([j for p in pairs for j in p])
+    n = 0
+    for k, (b, w) in enumerate(pairs):
+        rb, rw = res[2 * k], res[2 * k + 1]
+        case = {"base": b, "windowed": w}
+        if rb["rc"] != 0:
+            continue
+        n += 1
+        if rw["rc"] != 0:
+            out.violation(f"rp2_{b['country']} succeeds without a window and fails with -f {w['opts']['from']}: {rw['err']}", case, tags={"cli-window"})
+            continue
+        for fn, fw in rw["files"].items():
+            if "tax_report" not in fn or fn not in rb["files"] or fw.get("bad") or rb["files"][fn].get("bad"):
+                continue
+            all_rows = {}
+            # a row = its cells without the visual style (the first row shown of a report carries a border style)
+            rowkey = lambda r: json.dumps([None if c is None else list(c[:4]) for c in r])  # noqa: E731  (type, value, formula, text)
+            for _, rows in rb["files"][fn]["sheets"]:
+                for r in rows:
+                    key = rowkey(r)
+                    all_rows[key] = all_rows.get(key, 0) + 1
+            bad = None
+            for name, rows in fw["sheets"]:
+                if name == "Legend":            # states the window itself
+                    continue
+                for r in rows:
+                    if not any(c and c[1] not in (None, "") for c in r):
+                        continue                # blank / padding row
+                    key = rowkey(r)
+                    if all_rows.get(key, 0) <= 0:
+                        bad = (name, r)
+                        break
+                    all_rows[key] -= 1
+                if bad:
+                    break
+            if bad:
+                out.violation(f"rp2_{b['country']} -f {w['opts']['from']} with schedule {b['ini_extra'].split(chr(10))[1:3]}: {fn} sheet `{bad[0]}` shows the row "
+                              f"{[c[1] for c in bad[1] if c][:12]} that the unfiltered report does not have: a from-date must only hide rows",
+                              case, tags={"cli-window"})
+                break
+    return n
+
+
 def run(tier, build, replay=None):
     out = core.Outcome("C10", tier)
     proofs = core.check_proofs(build, "C10.v")
+    if replay and "windowed" in replay:
+        n_cli = cli_stage(out, tier, replay)
+        core.proofs_verdict(out, proofs, build, "C10.v")
+        out.coverage.update({"evaluations": n_cli, "distinct_nontrivial": n_cli, "rule": "replay of a command-line pair (unfiltered / -f)"})
+        return out.finish(proofs, build)
     if replay:
         core.impl_env_setup()
         c, f, t = replay["case"], replay.get("from"), replay.get("to")
@@ -107,8 +181,10 @@ def run(tier, build, replay=None):
             mism += 1
             out.violation(f"model and implementation disagree under window ({f}, {t}) on {l4.diff_keys(i['ok'], m) if 'err' not in m else m}",
                           rep, tags={"correspondence"}, found_input=False)
+    n_cli = cli_stage(out, tier) if not replay else 0
     core.proofs_verdict(out, proofs, build, "C10.v")
     out.coverage.update({
+        "command_line_pairs_unfiltered_vs_from_date": n_cli,
         "evaluations": len(data["jobs"]),
         "distinct_nontrivial": len(nontriv),
         "rule": "each generated history is run unfiltered and with a window (from / to / both / one-day, on, between and outside transaction days); the windowed "
